@@ -25,7 +25,8 @@ THEOREMS += ['CC.C05_gen_network_power', 'CC.C05_gen_dc_real', 'CC.C05_gen_dc_po
 LEAN_MODULE_EXTRA = ['CC.Properties.C05Gen', 'CC.Properties.C05Compose']
 THEOREMS += ['CC.C05_transient_sample', 'CC.C05_periodic_steady', 'CC.C05_superposed', 'CC.C05_time_domain', 'CC.superpose_reLine_v']
 OPEN_STATEMENTS = []
-ASSUMPTIONS = ['binary64 ≈ field arithmetic within 1e-9 relative', 'scipy.signal.lsim (transient samples) is a parameter']
+ASSUMPTIONS = ['C05_tellegen / C05_instant are Spec-level (any solution of CircuitEqs); they reach the reported values through C01_sound. The sign and mode facts (C05_resistor, C05_inductor, C05_capacitor, C05_modes, C05_power_sign) are identities over ℂ / any field without a model term: their link to reported values is C01_current_cases + C01_power + the element records of C07 and is not composed in Lean',
+               'binary64 ≈ field arithmetic within 1e-9 relative', 'scipy.signal.lsim (transient samples) is a parameter']
 
 def permuted_solver(seed):
     """the library's solver with permuted (valid, non-default) node / source index maps"""
